@@ -113,6 +113,7 @@ class Ctx:
         self.excluded_known = collections.Counter()
         self.inconclusive = 0
         self.exhaustive = []          # names of sub-domains enumerated completely
+        self._sm_state = {'first_fail': None, 'failing': {}, 'budget': 60}
         self.notes = []
 
     # ---- sizing
@@ -218,6 +219,23 @@ class Ctx:
                 # continue: search again behind the finding just recorded
         self.notes.append('%s: stopped after %d rounds of distinct findings' % (self.task, MAX_ROUNDS))
 
+    def should_raise(self, v, case):
+        """called by state machines before re-raising a Violation: implements known/seen exclusion and the shrink budget"""
+        if v.key in self.known:
+            self.excluded_known[v.key] += 1
+            return False
+        if v.key in self.seen:
+            return False
+        st_ = self._sm_state
+        dj = digest(case)
+        now = time.time()
+        if st_['first_fail'] is None:
+            st_['first_fail'] = now
+        elif now - st_['first_fail'] > st_['budget'] and dj not in st_['failing']:
+            return False          # shrink budget used up: freeze the current minimal history
+        st_['failing'][dj] = True
+        return True
+
     def stateful(self, machine_factory, max_examples, steps, shrink_s=None):
         """machine_factory() returns a RuleBasedStateMachine subclass whose instances raise Violation
         (with .case = the replayable op list) and call ctx.account at teardown."""
@@ -225,6 +243,7 @@ class Ctx:
         from hypothesis import HealthCheck, Phase, settings
         from hypothesis.stateful import run_state_machine_as_test
         for rnd in range(MAX_ROUNDS):
+            self._sm_state = {'first_fail': None, 'failing': {}, 'budget': shrink_s if shrink_s is not None else (40 if self.quick else 120)}
             cls = machine_factory(self)
             cls = hypothesis.seed(derive_seed(self.seed, 'sround', rnd))(cls)
             try:
@@ -249,6 +268,12 @@ def _worker(args):
     modname, task, tier, seed, shard, nshards, known = args
     t0 = time.time()
     try:
+        try:
+            import resource
+            lim = int(os.environ.get('VERIF_WORKER_MEM_GB', '6')) << 30
+            resource.setrlimit(resource.RLIMIT_AS, (lim, lim))       # a runaway allocation becomes MemoryError, not a dead box
+        except Exception:
+            pass
         sys.stdout = io.StringIO()        # the library print()s on unknown P2P commands; keep protocol lines clean
         mod = load_module(modname)
         ctx = Ctx(mod, task, tier, seed, shard, nshards, known)
